@@ -1,6 +1,270 @@
-//! C08 — not implemented yet.
+//! C08 — projection matrices map the view volume onto the canonical clip volume.
+
+use vek::geom::FrustumPlanes;
+use vek::mat::repr_c::column_major as cm;
+use vek::mat::repr_c::row_major as rm;
+use vkit::refmath as rf;
+use vkit::vk::{self, MatN};
 use vkit::*;
 
+const K: f64 = 4096.0;
+
+#[derive(Clone, Copy, Debug)]
+struct Planes<S> {
+    l: S,
+    r: S,
+    b: S,
+    t: S,
+    n: S,
+    f: S,
+}
+impl<S: Dom> Planes<S> {
+    fn vek(&self) -> FrustumPlanes<S> {
+        FrustumPlanes { left: self.l, right: self.r, bottom: self.b, top: self.t, near: self.n, far: self.f }
+    }
+}
+
+/// Interval [lo, hi] (or reversed) with a controlled ratio between its centre and half-width.
+fn gen_interval<S: Dom>(t: &mut Tape, allow_reversed: bool, cx: &mut Cx) -> (S, S) {
+    let h = S::q(t.int(1, 40), t.pick(&[1i64, 2, 3, 4, 5, 8]));
+    let centred = t.chance(40);
+    let c = if centred { S::zero() } else { h * S::q(t.int(-20, 20), t.pick(&[3i64, 4, 5, 7])) };
+    if !centred && !c.is_zero() {
+        cx.label("off-centre");
+    }
+    let (lo, hi) = (c - h, c + h);
+    if allow_reversed && t.chance(48) {
+        cx.label("reversed-interval");
+        (hi, lo)
+    } else {
+        (lo, hi)
+    }
+}
+/// near, far > 0, near != far.
+fn gen_depth<S: Dom>(t: &mut Tape, allow_far_lt_near: bool, cx: &mut Cx) -> (S, S) {
+    let n = S::q(t.int(1, 30), t.pick(&[1i64, 2, 3, 4, 5, 10, 20]));
+    let g = S::q(t.int(1, 60), t.pick(&[1i64, 1, 2, 3, 7]));
+    let f = n + n * g;
+    if allow_far_lt_near && t.chance(24) {
+        cx.label("far<near");
+        (f, n)
+    } else {
+        (n, f)
+    }
+}
+
+fn col2_negated<S: Dom>(m: &[[S; 4]; 4]) -> [[S; 4]; 4] {
+    let mut r = *m;
+    for i in 0..4 {
+        r[i][2] = -m[i][2];
+    }
+    r
+}
+
+/// Apply `m` to the point and compare the perspective-divided result with the expected clip-space corner.
+#[allow(clippy::too_many_arguments)]
+fn corner<S: Dom>(cx: &mut Cx, what: &str, m: &[[S; 4]; 4], p: [S; 3], want: [S; 3], want_w_one: bool, sc: f64) -> CaseResult {
+    let c = rf::matvec(m, &[p[0], p[1], p[2], S::one()]);
+    if want_w_one {
+        check_close!(cx, S, c[3], S::one(), 1.0, K, "{}: w of {:?} must be 1", what, p);
+    } else {
+        check!(cx, c[3] > S::zero(), "{}: point {:?} in front of the viewer must get positive w, got {:?}", what, p, c[3]);
+    }
+    let ndc = [c[0] / c[3], c[1] / c[3], c[2] / c[3]];
+    for i in 0..3 {
+        if !vkit::dom::close::<S>(cx, ndc[i], want[i], sc, K) {
+            fail!("{}: corner {:?} maps to ndc {:?} (clip {:?}), want {:?}", what, p, ndc, c, want);
+        }
+    }
+    Ok(())
+}
+
+/// All eight corners. `lh`: corners at z=+d, else z=-d. `persp`: x,y grow with d/n. `zo`: near -> 0 else -1.
+fn corners<S: Dom>(cx: &mut Cx, what: &str, m: &[[S; 4]; 4], pl: &Planes<S>, lh: bool, persp: bool, zo: bool, sc: f64) -> CaseResult {
+    let (one, zero) = (S::one(), S::zero());
+    for (x, ex) in [(pl.l, -one), (pl.r, one)] {
+        for (y, ey) in [(pl.b, -one), (pl.t, one)] {
+            for (d, ez) in [(pl.n, if zo { zero } else { -one }), (pl.f, one)] {
+                let k = if persp { d / pl.n } else { one };
+                let z = if lh { d } else { -d };
+                corner(cx, what, m, [x * k, y * k, z], [ex, ey, ez], !persp, sc)?;
+            }
+        }
+    }
+    Ok(())
+}
+
+macro_rules! proj_cases {
+    ($ortho:ident, $frustum:ident, $persp:ident, $l:ident, $lname:expr) => {
+        fn $ortho<S: Dom>(t: &mut Tape, cx: &mut Cx) -> CaseResult {
+            let (l, r) = gen_interval::<S>(t, true, cx);
+            let (b, tp) = gen_interval::<S>(t, true, cx);
+            // orthographic depth planes: any two distinct values, also negative
+            let n = S::q(t.int(-30, 30), t.pick(&[1i64, 2, 3, 5]));
+            let mut f = S::q(t.int(-60, 60), t.pick(&[1i64, 1, 2, 3]));
+            if f == n {
+                f = n + S::one();
+            }
+            let pl = Planes { l, r, b, t: tp, n, f };
+            cx.set_nontrivial((l + r) != S::zero() && (b + tp) != S::zero() && !n.is_zero() && n != S::one());
+            sample!(cx, "{} {} ortho planes {:?}", S::NAME, $lname, pl);
+            let sc = 8.0 * [l, r, b, tp, n, f].iter().fold(1.0f64, |m, x| m.max(x.f().abs())) / (r - l).f().abs().min((tp - b).f().abs()).min((f - n).f().abs()).min(1.0);
+            let o = pl.vek();
+            let lh_zo = $l::Mat4::<S>::orthographic_lh_zo(o).to_arr();
+            let lh_no = $l::Mat4::<S>::orthographic_lh_no(o).to_arr();
+            let rh_zo = $l::Mat4::<S>::orthographic_rh_zo(o).to_arr();
+            let rh_no = $l::Mat4::<S>::orthographic_rh_no(o).to_arr();
+            corners(cx, "orthographic_lh_zo", &lh_zo, &pl, true, false, true, sc)?;
+            corners(cx, "orthographic_lh_no", &lh_no, &pl, true, false, false, sc)?;
+            corners(cx, "orthographic_rh_zo", &rh_zo, &pl, false, false, true, sc)?;
+            corners(cx, "orthographic_rh_no", &rh_no, &pl, false, false, false, sc)?;
+            check_mat!(cx, S, lh_zo, col2_negated(&rh_zo), sc, K, "orthographic_lh_zo = orthographic_rh_zo * z-mirror");
+            check_mat!(cx, S, lh_no, col2_negated(&rh_no), sc, K, "orthographic_lh_no = orthographic_rh_no * z-mirror");
+            // without depth planes: x,y mapped, z and w left alone
+            let wd = $l::Mat4::<S>::orthographic_without_depth_planes(o).to_arr();
+            let (one, z) = (S::one(), S::any(t, 20));
+            for (x, ex) in [(l, -one), (r, one)] {
+                for (y, ey) in [(b, -one), (tp, one)] {
+                    let c = rf::matvec(&wd, &[x, y, z, one]);
+                    check_vec!(cx, S, [c[0], c[1]], [ex, ey], sc, K, "orthographic_without_depth_planes corner ({:?},{:?})", x, y);
+                    check_eq!(cx, (c[2], c[3]), (z, one), "orthographic_without_depth_planes leaves z and w alone");
+                }
+            }
+            Ok(())
+        }
+        fn $frustum<S: Dom>(t: &mut Tape, cx: &mut Cx) -> CaseResult {
+            let (l, r) = gen_interval::<S>(t, false, cx);
+            let (b, tp) = gen_interval::<S>(t, false, cx);
+            let (n, f) = gen_depth::<S>(t, true, cx);
+            let pl = Planes { l, r, b, t: tp, n, f };
+            let ratio = (f / n).f();
+            cx.set_nontrivial((l + r) != S::zero() && (b + tp) != S::zero() && n != S::one() && ratio.log2().fract() != 0.0);
+            sample!(cx, "{} {} frustum planes {:?}", S::NAME, $lname, pl);
+            let mx = [l, r, b, tp].iter().fold(1.0f64, |m, x| m.max(x.f().abs()));
+            let sc = 16.0 * (mx / (r - l).f().abs().min((tp - b).f().abs())).max(1.0) * ((f.f() + n.f()) / (f - n).f().abs()).max(1.0) * (f / n).f().max((n / f).f());
+            let o = pl.vek();
+            let lh_zo = $l::Mat4::<S>::frustum_lh_zo(o).to_arr();
+            let lh_no = $l::Mat4::<S>::frustum_lh_no(o).to_arr();
+            let rh_zo = $l::Mat4::<S>::frustum_rh_zo(o).to_arr();
+            let rh_no = $l::Mat4::<S>::frustum_rh_no(o).to_arr();
+            corners(cx, "frustum_rh_zo", &rh_zo, &pl, false, true, true, sc)?;
+            corners(cx, "frustum_rh_no", &rh_no, &pl, false, true, false, sc)?;
+            corners(cx, "frustum_lh_zo", &lh_zo, &pl, true, true, true, sc)?;
+            corners(cx, "frustum_lh_no", &lh_no, &pl, true, true, false, sc)?;
+            check_mat!(cx, S, lh_zo, col2_negated(&rh_zo), sc, K, "frustum_lh_zo = frustum_rh_zo * z-mirror");
+            check_mat!(cx, S, lh_no, col2_negated(&rh_no), sc, K, "frustum_lh_no = frustum_rh_no * z-mirror");
+            Ok(())
+        }
+        fn $persp<S: Dom>(t: &mut Tape, cx: &mut Cx) -> CaseResult {
+            let fov = S::angle_0_pi(t);
+            let two = S::i(2);
+            let th = (fov / two).tan();
+            let aspect = S::q(t.int(1, 30), t.int(1, 20));
+            let (n, f) = gen_depth::<S>(t, false, cx);
+            let height = S::q(t.int(1, 2000), t.pick(&[1i64, 1, 2, 3]));
+            let width = height * aspect;
+            let top = n * th;
+            let right = top * aspect;
+            let pl = Planes { l: -right, r: right, b: -top, t: top, n, f };
+            cx.set_nontrivial(aspect != S::one() && n != S::one() && (f / n).f().log2().fract() != 0.0);
+            sample!(cx, "{} {} perspective fov={:?} (tan(fov/2)={:?}) aspect={:?} near={:?} far={:?} width={:?} height={:?}", S::NAME, $lname, fov, th, aspect, n, f, width, height);
+            let sc = 16.0 * ((f.f() + n.f()) / (f - n).f()).max(1.0) * (f / n).f() * (1.0 / th.f()).max(th.f()).max(1.0) * aspect.f().max(1.0 / aspect.f());
+            let o = pl.vek();
+            type M<S> = $l::Mat4<S>;
+            let p_rh_zo = M::<S>::perspective_rh_zo(fov, aspect, n, f).to_arr();
+            let p_rh_no = M::<S>::perspective_rh_no(fov, aspect, n, f).to_arr();
+            let p_lh_zo = M::<S>::perspective_lh_zo(fov, aspect, n, f).to_arr();
+            let p_lh_no = M::<S>::perspective_lh_no(fov, aspect, n, f).to_arr();
+            corners(cx, "perspective_rh_zo", &p_rh_zo, &pl, false, true, true, sc)?;
+            corners(cx, "perspective_rh_no", &p_rh_no, &pl, false, true, false, sc)?;
+            corners(cx, "perspective_lh_zo", &p_lh_zo, &pl, true, true, true, sc)?;
+            corners(cx, "perspective_lh_no", &p_lh_no, &pl, true, true, false, sc)?;
+            // a perspective matrix is the frustum matrix of the symmetric planes it implies
+            check_mat!(cx, S, p_rh_zo, M::<S>::frustum_rh_zo(o).to_arr(), sc, K, "perspective_rh_zo = frustum_rh_zo(symmetric planes)");
+            check_mat!(cx, S, p_rh_no, M::<S>::frustum_rh_no(o).to_arr(), sc, K, "perspective_rh_no = frustum_rh_no(symmetric planes)");
+            check_mat!(cx, S, p_lh_zo, M::<S>::frustum_lh_zo(o).to_arr(), sc, K, "perspective_lh_zo = frustum_lh_zo(symmetric planes)");
+            check_mat!(cx, S, p_lh_no, M::<S>::frustum_lh_no(o).to_arr(), sc, K, "perspective_lh_no = frustum_lh_no(symmetric planes)");
+            check_mat!(cx, S, p_lh_zo, col2_negated(&p_rh_zo), sc, K, "perspective_lh_zo = perspective_rh_zo * z-mirror");
+            check_mat!(cx, S, p_lh_no, col2_negated(&p_rh_no), sc, K, "perspective_lh_no = perspective_rh_no * z-mirror");
+            // field-of-view + viewport size variants
+            check_mat!(cx, S, M::<S>::perspective_fov_rh_zo(fov, width, height, n, f).to_arr(), p_rh_zo, sc, K, "perspective_fov_rh_zo(w,h) = perspective_rh_zo(w/h)");
+            check_mat!(cx, S, M::<S>::perspective_fov_rh_no(fov, width, height, n, f).to_arr(), p_rh_no, sc, K, "perspective_fov_rh_no(w,h) = perspective_rh_no(w/h)");
+            check_mat!(cx, S, M::<S>::perspective_fov_lh_zo(fov, width, height, n, f).to_arr(), p_lh_zo, sc, K, "perspective_fov_lh_zo(w,h) = perspective_lh_zo(w/h)");
+            check_mat!(cx, S, M::<S>::perspective_fov_lh_no(fov, width, height, n, f).to_arr(), p_lh_no, sc, K, "perspective_fov_lh_no(w,h) = perspective_lh_no(w/h)");
+            // infinite perspective
+            let inf_rh = M::<S>::infinite_perspective_rh(fov, aspect, n).to_arr();
+            let inf_lh = M::<S>::infinite_perspective_lh(fov, aspect, n).to_arr();
+            check_mat!(cx, S, inf_rh, M::<S>::tweaked_infinite_perspective_rh(fov, aspect, n, S::zero()).to_arr(), sc, K, "infinite_perspective_rh = tweaked(eps = 0)");
+            check_mat!(cx, S, inf_lh, M::<S>::tweaked_infinite_perspective_lh(fov, aspect, n, S::zero()).to_arr(), sc, K, "infinite_perspective_lh = tweaked(eps = 0)");
+            check_mat!(cx, S, inf_lh, col2_negated(&inf_rh), sc, K, "infinite_perspective_lh = infinite_perspective_rh * z-mirror");
+            // entry-wise limit far -> infinity of perspective_rh_no: m22 -> -1, m23 -> -2 near, the rest unchanged
+            let mut lim = p_rh_no;
+            lim[2][2] = -S::one();
+            lim[2][3] = -two * n;
+            check_mat!(cx, S, inf_rh, lim, sc, K, "infinite_perspective_rh = limit of perspective_rh_no as far -> infinity");
+            let one = S::one();
+            let eps = S::q(t.int(0, 9), 1000);
+            let tw_rh = M::<S>::tweaked_infinite_perspective_rh(fov, aspect, n, eps).to_arr();
+            let tw_lh = M::<S>::tweaked_infinite_perspective_lh(fov, aspect, n, eps).to_arr();
+            for (name, m, lh) in [("infinite_perspective_rh", &inf_rh, false), ("infinite_perspective_lh", &inf_lh, true), ("tweaked_infinite_perspective_rh", &tw_rh, false), ("tweaked_infinite_perspective_lh", &tw_lh, true)] {
+                for (x, ex) in [(pl.l, -one), (pl.r, one)] {
+                    for (y, ey) in [(pl.b, -one), (pl.t, one)] {
+                        corner(cx, name, m, [x, y, if lh { n } else { -n }], [ex, ey, -one], false, sc)?;
+                    }
+                }
+            }
+            // depth(d) = 1 - 2 near / d: strictly increasing with limit 1
+            let d1 = n * S::q(t.int(2, 50), 1);
+            let d2 = d1 * S::q(t.int(2, 9), 1);
+            for (name, m, lh) in [("infinite_perspective_rh", &inf_rh, false), ("infinite_perspective_lh", &inf_lh, true)] {
+                let mut last = -one;
+                for d in [d1, d2] {
+                    let c = rf::matvec(m, &[S::zero(), S::zero(), if lh { d } else { -d }, one]);
+                    check!(cx, c[3] > S::zero(), "{}: w > 0 in front of the viewer", name);
+                    let depth = c[2] / c[3];
+                    check_close!(cx, S, depth, one - two * n / d, sc, K, "{}: depth(d) = 1 - 2 near / d", name);
+                    check!(cx, depth > last && depth < one, "{}: depth must increase towards 1 (got {:?} after {:?})", name, depth, last);
+                    last = depth;
+                }
+            }
+            Ok(())
+        }
+    };
+}
+proj_cases!(ortho_rows, frustum_rows, persp_rows, rm, "row-major");
+proj_cases!(ortho_cols, frustum_cols, persp_cols, cm, "col-major");
+
 pub fn property() -> Property {
-    Property { id: "C08", rule: "", assumptions: &[], checks: Vec::new(), max_discard_frac: 0.2 }
+    let mut checks = Vec::new();
+    macro_rules! tape {
+        ($name:expr, $about:expr, $len:expr, $q:expr, $th:expr, $f:expr) => {
+            checks.push(Check { name: $name, about: $about, kind: Kind::Tape { len: $len, quick: $q, thorough: $th, f: $f } });
+        };
+    }
+    let o = "orthographic_{lh,rh}_{zo,no} and orthographic_without_depth_planes: 8 corners of the box (planes also reversed / negative depths) map to the clip corners, w = 1; lh = rh * z-mirror";
+    let f = "frustum_{lh,rh}_{zo,no} on off-centre volumes: 8 corners (x,y scaled by d/near, z = +-d) map to (-+1, -+1, near->0|-1, far->1) after the divide, w > 0; lh = rh * z-mirror";
+    let p = "perspective_{lh,rh}_{zo,no}, perspective_fov_*, (tweaked_)infinite_perspective_*: corners of the implied symmetric volume; equals the frustum matrix of the implied planes; fov(w,h) = perspective(w/h); lh = rh * z-mirror; infinite = tweaked(0) = entry-wise limit far->inf; depth(d) = 1 - 2n/d";
+    tape!("ortho-rows-rat", o, 64, 20_000, 500_000, ortho_rows::<Rat>);
+    tape!("ortho-cols-rat", o, 64, 20_000, 500_000, ortho_cols::<Rat>);
+    tape!("ortho-cols-f64", o, 64, 20_000, 500_000, ortho_cols::<f64>);
+    tape!("frustum-rows-rat", f, 64, 20_000, 500_000, frustum_rows::<Rat>);
+    tape!("frustum-cols-rat", f, 64, 20_000, 500_000, frustum_cols::<Rat>);
+    tape!("frustum-rows-f64", f, 64, 20_000, 500_000, frustum_rows::<f64>);
+    tape!("frustum-cols-f32", f, 64, 20_000, 500_000, frustum_cols::<f32>);
+    tape!("perspective-rows-rat", p, 64, 20_000, 500_000, persp_rows::<Rat>);
+    tape!("perspective-cols-rat", p, 64, 20_000, 500_000, persp_cols::<Rat>);
+    tape!("perspective-cols-f64", p, 64, 20_000, 500_000, persp_cols::<f64>);
+    tape!("perspective-rows-f32", p, 64, 20_000, 500_000, persp_rows::<f32>);
+    Property {
+        id: "C08",
+        rule: "planes generated as centre +- half-width (centre 0 in ~15% of cases, otherwise off-centre by up to 7 half-widths; orthographic planes also reversed and with negative depth values), near/far positive with far/near in (1, 61] (frustum: also far < near); fields of view as registered angles in (0, pi), rational aspect and viewport sizes; non-trivial = off-centre in x and y, near != 1, far/near not a power of two (perspective: aspect != 1); distinct = distinct consumed tape prefix",
+        assumptions: &[
+            "rustc and the proptest runner/shrinker are trusted",
+            "oracle: validity predicate on the images of the eight corners after the homogeneous divide (reference matrix*vector on plain arrays), plus entry-wise relations between constructors",
+            "perspective family only on the debug_assert!ed domain: fov in (0, pi), aspect, width, height, near > 0, far > near",
+            "float tolerance 4096*eps*scale with scale from the plane magnitudes / interval widths / far-near ratio",
+        ],
+        checks,
+        max_discard_frac: 0.1,
+    }
 }
